@@ -834,6 +834,7 @@ func rankFlat(w *load.World, c *core.Collector) {
 		at ssa.Instruction
 	}
 	calledFrom := map[*ssa.Function][]site{}
+	scoreChecked := map[*ssa.Function]bool{}
 	for _, g := range append([]*ssa.Function{}, cands...) {
 		for _, b := range g.Blocks {
 			for _, in := range b.Instrs {
@@ -888,7 +889,25 @@ func rankFlat(w *load.World, c *core.Collector) {
 					if !ok {
 						continue
 					}
-					bo, ok := ifi.Cond.(*ssa.BinOp)
+					cond, negated := ifi.Cond, false
+					if un, isNot := cond.(*ssa.UnOp); isNot && un.Op == token.NOT {
+						cond, negated = un.X, true
+					}
+					// a predicate helper ("isFull(res)"): the comparison it returns
+					if pc, isCall := cond.(*ssa.Call); isCall {
+						if h := pc.Call.StaticCallee(); h != nil && ssax.InModule(h) && h.Signature.Results().Len() == 1 {
+							var rets []*ssa.Return
+							for _, hb := range h.Blocks {
+								if r, ok := hb.Instrs[len(hb.Instrs)-1].(*ssa.Return); ok && hb != h.Recover {
+									rets = append(rets, r)
+								}
+							}
+							if len(rets) == 1 {
+								cond = ssax.ReturnOperand(rets[0], 0)
+							}
+						}
+					}
+					bo, ok := cond.(*ssa.BinOp)
 					if !ok {
 						continue
 					}
@@ -924,6 +943,9 @@ func rankFlat(w *load.World, c *core.Collector) {
 					case token.GEQ, token.EQL:
 						room = 1
 					}
+					if room >= 0 && negated {
+						room = 1 - room
+					}
 					if room >= 0 && ssax.OnlyViaEdge(b, room, call.Block()) {
 						okLim = true
 					}
@@ -947,7 +969,18 @@ func rankFlat(w *load.World, c *core.Collector) {
 				}
 			}
 		}
-		checkScore(w, c, g, "flat:score", true, "Distance", []string{"C04", "C06"})
+		// the result may be built by the caller and handed to a helper that only places it
+		if len(hybridStores(g)) == 0 && len(calledFrom[g]) > 0 {
+			for _, cs := range calledFrom[g] {
+				if !scoreChecked[cs.in] {
+					scoreChecked[cs.in] = true
+					checkScore(w, c, cs.in, "flat:score", true, "Distance", []string{"C04", "C06"})
+				}
+			}
+		} else if !scoreChecked[g] {
+			scoreChecked[g] = true
+			checkScore(w, c, g, "flat:score", true, "Distance", []string{"C04", "C06"})
+		}
 		// the k best are the k nearest: what keeps, rejects and orders candidates is the
 		// distance. The hybrid score is weight times minus distance, and the weight is the
 		// caller's: zero makes every candidate equal, a negative one reverses the order.
